@@ -244,7 +244,7 @@ def run_history(job):
     g = ra.AsyncGraph(N, N[cfg["sup"]], clock=clock, real_time_factor=const.RealTimeFactor.FAST_AS_POSSIBLE if rtf == 0 else float(rtf))
     g.set_record_settings(**{k: rec[k] for k in ("params", "rng", "inputs", "state", "output") if k in rec})
     gs0 = g.init(jax.random.PRNGKey(job.get("seed", 0))); g.warmup(gs0, jit_step=False)
-    episodes = []
+    episodes = []; last_gs = None
     for ei, hist in enumerate(job["history"]):
         del HOSTLOG[:]
         gate = None
@@ -253,9 +253,11 @@ def run_history(job):
             gate = Gate(n_sup + 1 if hist and hist[0] == "run" else n_sup + 1)
             ra._verif_hook = gate
         elif job.get("perturb"): ra._verif_hook = Perturb(job["perturb"])
-        gs = gs0; ss = None; obs = []; info = dict(calls_done=[], gate=None)
+        # carry: the user keeps feeding the graph state of the previous episode (gs = graph.run(gs) loops continued after stop(), reset(last gs))
+        start = last_gs if (job.get("carry") and ei > 0 and last_gs is not None) else gs0
+        gs = start; ss = None; obs = []; info = dict(calls_done=[], gate=None)
         for op in hist:
-            if op == "reset": gs, ss = g.reset(gs0); obs.append(canon_ss(ss))   # every (re)start is from the initial graph state
+            if op == "reset": gs, ss = g.reset(start); obs.append(canon_ss(ss))   # every (re)start is from the initial (or, carry, the previous episode's last) graph state
             elif op == "step": gs, ss = g.step(gs); obs.append(canon_ss(ss))
             elif op == "run": gs = g.run(gs)
             elif op == "stop":
@@ -269,7 +271,9 @@ def run_history(job):
             c = canon_record(cfg, g.get_record(), rec)
         except TypeError as e:
             c = dict(error="record_unavailable:" + str(e)[:80])
-        episodes.append(dict(record=c, obs=obs, info=info, eps=[int(n.eps) for n in g._async_nodes.values()]))
+        last_gs = gs
+        with HOSTLOCK: calls = list(HOSTLOG)
+        episodes.append(dict(record=c, obs=obs, info=info, eps=[int(n.eps) for n in g._async_nodes.values()], calls=calls))
     return dict(id=job["id"], node_phase=nph, conn_phase=cph, episodes=episodes)
 
 
